@@ -14,10 +14,11 @@
    (d) balance              C02f_balance, C02f_document_balance, C02f_nesting_check_uses_parent_chain,
                             C02f_nested_parse_error_nonzero (full)
    (e) names                C02f_names_step, C02f_names, C02f_names_from_events (full)
-   markers                  C02f_outside_model_unreachable (full) *)
+   markers                  C02f_outside_model_unreachable (full), C02f_no_null_dereference_on_documents (full for event lists
+                            of the shape Expat delivers; hypothesis on the nested parse) *)
 From Coq Require Import List NArith String.
 From Wbxml Require Import Model.TablesDefs Model.Tables Model.LangSelect Model.EncWbxml Model.XmlFront Model.Conv.
-From Wbxml Require Import Proofs.XmlFrontProofs Proofs.XmlFrontTree Proofs.XmlFrontBalance Proofs.XmlFrontExamples.
+From Wbxml Require Import Proofs.XmlFrontProofs Proofs.XmlFrontTree Proofs.XmlFrontBalance Proofs.XmlFrontNoUB Proofs.XmlFrontExamples.
 From Wbxml Require Import Gen.TablesData Properties.Properties_C02.
 Import ListNotations.
 Local Open Scope N_scope.
@@ -198,6 +199,17 @@ Theorem C02f_outside_model_unreachable :
   forall main sub input evs, (forall d, sub d <> inr E_OUTSIDE_MODEL) -> c_error (run main sub input init_ctx evs) <> E_OUTSIDE_MODEL.
 Proof. intros main sub input evs H. exact (outside_model_unreachable main sub input evs H). Qed.
 Print Assumptions C02f_outside_model_unreachable.
+
+(* the places where the C would dereference a NULL pointer (model code E_UB_NULL: tree->lang or node->parent is NULL,
+   possible only when a CDATA section precedes the root element) are not reached on prolog + root element with
+   well-bracketed content + epilog, provided the nested parse does not report that code either *)
+Theorem C02f_no_null_dereference_on_documents :
+  forall main sub input, (forall d, sub d <> inr E_UB_NULL) -> (forall d, sub d <> inr WBXML_OK) ->
+  forall prolog root attrs i i' body epilog,
+  Forall prolog_any prolog -> balanced body -> Forall is_pi epilog -> N.of_nat (List.length body) + 1 < 4294967296 ->
+  c_error (run main sub input init_ctx (prolog ++ EvStartElement root attrs i :: body ++ EvEndElement root i' :: epilog)) <> E_UB_NULL.
+Proof. exact document_no_ub. Qed.
+Print Assumptions C02f_no_null_dereference_on_documents.
 
 (* ------------------------------------------------------------------ examples: the hypotheses are satisfiable *)
 
